@@ -39,7 +39,8 @@ AddMulCompact(d, s, c) ==
    taken from the wrong 256-byte, 4096-byte ... block is visible *)
 Byte(p, i, j) == IF p = 0 THEN (37 * i + 11 * j + 5) % 256
                  ELSE IF p = 1 THEN ((i + 1) * (j + 3) * 167 + i * i * 13 + 91) % 256
-                 ELSE (37 * i + 29 * (i \div 251) + 11 * j + 5) % 256
+                 ELSE IF p = 2 THEN (37 * i + 29 * (i \div 251) + 11 * j + 5) % 256
+                 ELSE IF (i \div 16) % 3 = 1 THEN 0 ELSE (37 * i + 11 * j + 5) % 256     \* pattern 3: whole 16-byte chunks of zeros
 Content(kid, p, i, j) == IF kid = 5 THEN Byte(p, i, j) % 16 ELSE Byte(p, i, j)
 Sym(kid, p, j, sz) == Tup(sz, LAMBDA i : Content(kid, p, i - 1, j))
 
@@ -98,17 +99,23 @@ SizesBig(tier) == IF tier = "q" THEN {255, 256, 257, 1024, 4095, 4096, 4097, 819
 CountsBig(tier) == IF tier = "q" THEN {2, 9, 17} ELSE {1, 2, 3, 8, 9, 11, 16, 17}
 ConstBig(kid) == IF FieldBits(kid) = 8 THEN 142 ELSE 9
 IsBig(tier, sz) == sz > MaxSize(tier)
+(* pattern 3 (data with runs of zeros: a kernel that treats zero words specially) at a few sizes of both ranges *)
+SizesSparse(tier) == IF tier = "q" THEN {32, 40, 257, 4097} ELSE {31, 32, 33, 40, 48, 64, 80, 129, 257, 1025, 4097}
+CountsSparse == {1, 2, 3}
 
 GroupSet(tier, kid) ==
     LET L == MaxSize(tier)  N == MaxCount(tier)
     IN  IF kid = 0 THEN { <<sz, 1, p, 0>> : sz \in 0 .. L, p \in 0 .. 1 } \cup { <<sz, 1, 2, 0>> : sz \in SizesBig(tier) }
+                        \cup { <<sz, 1, 3, 0>> : sz \in SizesSparse(tier) }
         ELSE IF kid \in {1, 2} THEN { <<sz, n, p, 0>> : sz \in 0 .. L, n \in 0 .. N, p \in 0 .. 1 }
                                     \cup { <<sz, n, 2, 0>> : sz \in SizesBig(tier), n \in CountsBig(tier) }
+                                    \cup { <<sz, n, 3, 0>> : sz \in SizesSparse(tier), n \in CountsSparse }
         ELSE { <<sz, 1, p, c>> : sz \in 0 .. L, p \in 0 .. 1, c \in ConstA(tier, kid) }
              \cup { <<sz, 1, 0, c>> : sz \in SizesB(tier), c \in ConstB(tier, kid) \ ConstA(tier, kid) }
              \cup { <<sz, 1, 2, ConstBig(kid)>> : sz \in SizesBig(tier) }
+             \cup { <<sz, 1, 3, ConstBig(kid)>> : sz \in SizesSparse(tier) }
 
-Rank(g) == ((g[1] * 32 + g[2]) * 2 + g[3]) * 256 + g[4]
+Rank(g) == ((g[1] * 32 + g[2]) * 4 + g[3]) * 256 + g[4]
 
 (* alignment vectors (offset 0..7 of each buffer from an 8-byte boundary), in the order they must be run *)
 AlAll(nb) == Tup(8 ^ nb, LAMBDA k : Tup(nb, LAMBDA b : ((k - 1) \div (8 ^ (nb - b))) % 8))
@@ -122,7 +129,7 @@ AlBig(nb) == << Tup(nb, LAMBDA b : 0), Tup(nb, LAMBDA b : 1), Tup(nb, LAMBDA b :
    in tier "q", pattern 1 uses the 8 uniform vectors only *)
 AlSeq(tier, kid, sz, n, p, c) ==
     LET nb == NBuf(kid, n)
-    IN  IF IsBig(tier, sz) THEN AlBig(nb)
+    IN  IF IsBig(tier, sz) \/ p = 3 THEN AlBig(nb)
         ELSE IF p = 1 /\ tier = "q" THEN AlUniform(nb)
         ELSE IF kid >= 3 /\ c \notin ConstA(tier, kid) THEN AlJoint(nb)
         ELSE IF nb <= 3 THEN AlAll(nb)
